@@ -79,9 +79,11 @@ def enc_tc(t) -> str:
 # Lean side
 
 
-def lake_build() -> tuple[bool, str]:
+def lake_build(targets=()) -> tuple[bool, str]:
+    """`lake build` of the given targets (default: everything).  A check builds only its own property module (and what
+    that imports) plus the driver, so that a broken obligation of ANOTHER property never makes this check fail."""
     p = subprocess.run(
-        ["lake", "build"], cwd=LEAN_DIR, capture_output=True, text=True, timeout=3000
+        ["lake", "build", *targets], cwd=LEAN_DIR, capture_output=True, text=True, timeout=3000
     )
     return p.returncode == 0, p.stdout + p.stderr
 
@@ -126,7 +128,7 @@ def lean_sources() -> list[Path]:
 def proof_stage(pid: str, extra_modules: list[str] | None = None) -> dict:
     """build, audit, grep.  Returns dict(obligations, discharged, failures[list of str], log)"""
     failures = []
-    ok, log = lake_build()
+    ok, log = lake_build([f"LithiumProps.{pid}", "driver"])
     names = theorem_names(pid)
     if not ok:
         return dict(obligations=max(len(names), 1), discharged=0,
